@@ -382,6 +382,16 @@ func TestC15Trees(t *testing.T) {
 		} else {
 			tree = ctx.GenWhere(rt, rapid.IntRange(1, 5).Draw(rt, "depth"))
 		}
+		// round 10: a call argument that begins with the unary operator,
+		// str(!b) - the operand of ! being anything Boolean
+		if rapid.IntRange(0, 7).Draw(rt, "notAsCallArgument") == 0 {
+			arg := lib.Call("str", lib.Not(ctx.GenBool(rt, rapid.IntRange(0, 2).Draw(rt, "notArgDepth"))))
+			if field {
+				tree = arg
+			} else {
+				tree = lib.Bin("=", arg, lib.Str("true"))
+			}
+		}
 		// literals must be quote-free for the fixpoint leg
 		quoteFree := true
 		tree.Walk(func(n *lib.Node) {
